@@ -1,18 +1,125 @@
 #[cfg(test)]
 mod verif_demo_xlswb_2 {
-    use super::verif_demo_xlswb_1::{bof, open, rec};
+    use super::*;
+    use std::io::Cursor;
+
+    /// one BIFF record: type, size, body
+    pub(super) fn rec(typ: u16, body: &[u8]) -> Vec<u8> {
+        let mut v = typ.to_le_bytes().to_vec();
+        v.extend_from_slice(&(body.len() as u16).to_le_bytes());
+        v.extend_from_slice(body);
+        v
+    }
+    /// BOF [MS-XLS] 2.4.21: vers 0x0600 (BIFF8), dt (0x0005 globals / 0x0010 worksheet), build ids, flags
+    pub(super) fn bof(dt: u16) -> Vec<u8> {
+        let mut b = vec![0x00, 0x06];
+        b.extend_from_slice(&dt.to_le_bytes());
+        b.extend_from_slice(&[0xDB, 0x0F, 0xCC, 0x07, 0, 0, 0, 0, 6, 0, 0, 0]);
+        rec(0x0809, &b)
+    }
+    /// BoundSheet8 [MS-XLS] 2.4.28: lbPlyPos, hsState 0 (visible), dt 0 (worksheet), name (cch, flags 0 = compressed, bytes)
+    pub(super) fn boundsheet(pos: u32, name: &str) -> Vec<u8> {
+        let mut b = pos.to_le_bytes().to_vec();
+        b.extend_from_slice(&[0, 0, name.len() as u8, 0]);
+        b.extend_from_slice(name.as_bytes());
+        rec(0x0085, &b)
+    }
+    /// a minimal version-3 compound file (512-byte sectors: FAT = sector 0, directory = sector 1, stream = sectors 2..)
+    /// holding one stream "Workbook" with the given bytes (zero padded to 4096 bytes so that it lives in regular sectors)
+    pub(super) fn image(workbook: &[u8]) -> Vec<u8> {
+        const END: u32 = 0xFFFF_FFFE;
+        let mut stream = workbook.to_vec();
+        let n = std::cmp::max(8, (stream.len() + 511) / 512);
+        stream.resize(n * 512, 0);
+        assert!(n + 2 <= 128, "one FAT sector");
+        let mut h = vec![0u8; 512];
+        h[..8].copy_from_slice(&[0xD0, 0xCF, 0x11, 0xE0, 0xA1, 0xB1, 0x1A, 0xE1]);
+        h[24..26].copy_from_slice(&0x003Eu16.to_le_bytes());
+        h[26..28].copy_from_slice(&3u16.to_le_bytes()); // major version 3
+        h[28..30].copy_from_slice(&0xFFFEu16.to_le_bytes());
+        h[30..32].copy_from_slice(&9u16.to_le_bytes()); // sector shift: 512
+        h[32..34].copy_from_slice(&6u16.to_le_bytes()); // mini sector shift
+        h[44..48].copy_from_slice(&1u32.to_le_bytes()); // one FAT sector
+        h[48..52].copy_from_slice(&1u32.to_le_bytes()); // first directory sector
+        h[56..60].copy_from_slice(&4096u32.to_le_bytes()); // mini stream cutoff
+        h[60..64].copy_from_slice(&0u32.to_le_bytes()); // first mini FAT sector (none: count 0)
+        h[68..72].copy_from_slice(&END.to_le_bytes()); // no DIFAT sector
+        for b in h[76..].iter_mut() {
+            *b = 0xFF;
+        }
+        h[76..80].copy_from_slice(&0u32.to_le_bytes()); // DIFAT[0]: FAT is sector 0
+        let mut fat = vec![0xFFu8; 512];
+        fat[0..4].copy_from_slice(&0xFFFF_FFFDu32.to_le_bytes());
+        fat[4..8].copy_from_slice(&END.to_le_bytes());
+        for k in 0..n {
+            let id = 2 + k;
+            let next = if k + 1 == n { END } else { id as u32 + 1 };
+            fat[4 * id..4 * id + 4].copy_from_slice(&next.to_le_bytes());
+        }
+        let entry = |name: &str, typ: u8, child: u32, start: u32, len: u32| {
+            let mut e = [0u8; 128];
+            let mut k = 0;
+            for c in name.encode_utf16() {
+                e[2 * k..2 * k + 2].copy_from_slice(&c.to_le_bytes());
+                k += 1;
+            }
+            e[64..66].copy_from_slice(&((k as u16 + 1) * 2).to_le_bytes());
+            e[66] = typ;
+            e[67] = 1;
+            e[68..72].copy_from_slice(&0xFFFF_FFFFu32.to_le_bytes());
+            e[72..76].copy_from_slice(&0xFFFF_FFFFu32.to_le_bytes());
+            e[76..80].copy_from_slice(&child.to_le_bytes());
+            e[116..120].copy_from_slice(&start.to_le_bytes());
+            e[120..124].copy_from_slice(&len.to_le_bytes());
+            e
+        };
+        let mut dir = Vec::new();
+        dir.extend_from_slice(&entry("Root Entry", 5, 1, END, 0));
+        dir.extend_from_slice(&entry("Workbook", 2, 0xFFFF_FFFF, 2, (n * 512) as u32));
+        dir.extend_from_slice(&[0u8; 256]);
+        let mut f = h;
+        f.extend_from_slice(&fat);
+        f.extend_from_slice(&dir);
+        f.extend_from_slice(&stream);
+        f
+    }
+    pub(super) fn open(workbook: &[u8]) -> Result<Xls<Cursor<Vec<u8>>>, XlsError> {
+        Xls::new(Cursor::new(image(workbook)))
+    }
+
+    // control: the builder makes files the reader accepts (one sheet "A" with a NUMBER cell 1.5 at B3), and a BIFF8 FILEPASS with
+    // wEncryptionType = 1 (RC4) is reported
+    #[test]
+    fn verif_demo_xlswb_control() {
+        let mut sheet = bof(0x0010);
+        let mut num = vec![2, 0, 1, 0, 0, 0];
+        num.extend_from_slice(&1.5f64.to_le_bytes());
+        sheet.extend(rec(0x0203, &num));
+        sheet.extend(rec(0x000A, &[]));
+        let mut wb = bof(0x0005);
+        let pos = (wb.len() + 4 + 8 + 1 + 4) as u32;
+        wb.extend(boundsheet(pos, "A"));
+        wb.extend(rec(0x000A, &[]));
+        assert_eq!(wb.len() as u32, pos);
+        wb.extend(sheet);
+        let mut x = open(&wb).unwrap();
+        assert_eq!(x.sheet_names(), vec!["A".to_string()]);
+        let r = x.worksheet_range("A").unwrap();
+        assert_eq!(r.get_value((2, 1)), Some(&Data::Float(1.5)));
+
+        let mut enc = bof(0x0005);
+        enc.extend(rec(0x002F, &[1, 0, 1, 0, 1, 0, 0, 0, 0, 0]));
+        enc.extend(rec(0x000A, &[]));
+        assert!(matches!(open(&enc), Err(XlsError::Password)));
+    }
+
     fn globals_with(r: Vec<u8>) -> Vec<u8> {
         let mut wb = bof(0x0005);
         wb.extend(r);
         wb.extend(rec(0x000A, &[]));
         wb
     }
-    // `read_u16(r.data)` on a record body shorter than 2 bytes: FILEPASS / CodePage / Date1904 / ExternSheet
-    #[test]
-    #[should_panic]
-    fn verif_demo_xlswb_filepass_empty_body() {
-        let _ = open(&globals_with(rec(0x002F, &[])));
-    }
+    // `read_u16(r.data)` on a record body shorter than 2 bytes: CodePage / Date1904 / ExternSheet
     #[test]
     #[should_panic]
     fn verif_demo_xlswb_codepage_one_byte() {
